@@ -250,8 +250,9 @@ def known_match(prop, **kw):
 
 
 # ----------------------------------------------------------------------------------------------
-# exploration-only stream: generic packages with generic TYPES and types of their own, deferred constants, used
-# through instances in typed contexts.  (The MiniVHDL reference has generic packages with constant generics only —
+# exploration-only stream: (1) generic packages with generic TYPES and types of their own, deferred constants, used
+# through instances in typed contexts; (2) explicit overloads of predefined operations followed by an alias of the type
+# in the same region, arrays whose element is named by a subtype with ordering operators and MINIMUM/MAXIMUM.  (The MiniVHDL reference has generic packages with constant generics only —
 # types inside a generic package need per-instance type identity, which the reference does not model — so these
 # programs are hand-written templates with parameters, valid by inspection, NOT covered by the theorems.)
 # ----------------------------------------------------------------------------------------------
@@ -322,11 +323,85 @@ def template_program(k, r):
     return lib, files
 
 
+def template_program2(k, r):
+    """explicit overloads of predefined operations of a type followed by an alias of the type in the same region
+    (package / architecture / other package), and arrays whose element subtype indication names a SUBTYPE, compared
+    with the ordering operators and MINIMUM / MAXIMUM"""
+    lib = "ul%d" % k
+    pk, usr, ent = "opk%d" % k, "ousr%d" % k, "oent%d" % k
+    is_enum = r.randrange(3) == 0
+    if is_enum:
+        tdecl = "  type word_t is (w0, w1, w2, w3);"
+        conv = lambda x: "word_t'pos(%s)" % x
+        lits = ["w0", "w1", "w2", "w3"]
+        sub = "  subtype small_t is word_t range w0 to w2;"
+    else:
+        tdecl = "  type word_t is range 0 to 255;"
+        conv = lambda x: "integer(%s)" % x
+        lits = ["0", "7", "42", "200"]
+        sub = "  subtype small_t is word_t range 0 to 15;"
+    ops = [o for o in ["<", "=", "<=", "maximum", "to_string"] if r.randrange(2) == 0] or ["<"]
+    decls, bodies = [], []
+    for o in ops:
+        if o in ("<", "=", "<="):
+            decls.append('  function "%s" (a, b : word_t) return boolean;' % o)
+            bodies.append('  function "%s" (a, b : word_t) return boolean is\n  begin\n    return %s %s %s;\n  end function;'
+                          % (o, conv("a"), o, conv("b")))
+        elif o == "maximum":
+            decls.append("  function maximum (a, b : word_t) return word_t;")
+            bodies.append("  function maximum (a, b : word_t) return word_t is\n  begin\n    if %s < %s then return b; else return a; end if;\n  end function;"
+                          % (conv("a"), conv("b")))
+        else:
+            decls.append("  function to_string (a : word_t) return string;")
+            bodies.append("  function to_string (a : word_t) return string is\n  begin\n    return integer'image(%s);\n  end function;" % conv("a"))
+    alias_in_pkg = r.randrange(2) == 0
+    pkg = ["library ieee;", "use ieee.std_logic_1164.all;", "package %s is" % pk, tdecl, sub,
+           "  subtype nat8_t is natural range 0 to 255;",
+           "  type nat_arr_t is array (natural range <>) of natural;",
+           "  type sub_arr_t is array (0 to 3) of small_t;",
+           "  type n8_arr_t is array (0 to 2) of nat8_t;",
+           "  type sl_arr_t is array (0 to 3) of std_logic;"] + decls
+    if alias_in_pkg:
+        pkg.append("  alias w_alias_t is word_t;")
+    pkg += ["  constant na1 : nat_arr_t(0 to 2) := (1, 2, 3);", "  constant na2 : nat_arr_t(0 to 2) := (others => 2);",
+            "  constant sa1 : sub_arr_t := (others => %s);" % lits[0], "  constant sa2 : sub_arr_t := (others => %s);" % lits[1],
+            "  constant n81 : n8_arr_t := (1, 2, 3);", "  constant n82 : n8_arr_t := (3, 2, 1);",
+            "  constant sl1 : sl_arr_t := (others => '0');", "  constant sl2 : sl_arr_t := ('1', '0', 'Z', 'X');",
+            "end package;"]
+    body = ["package body %s is" % pk] + bodies + ["end package body;"]
+    cmp_ops = ["<", "<=", ">", ">="]
+    u = ["library ieee;", "use ieee.std_logic_1164.all;", "library %s;" % lib, "use %s.%s.all;" % (lib, pk),
+         "entity %s is" % ent, "end entity;", "architecture a of %s is" % ent]
+    for j, (x, y) in enumerate([("na1", "na2"), ("sa1", "sa2"), ("n81", "n82"), ("sl1", "sl2")]):
+        u.append("  constant b%d : boolean := %s %s %s;" % (j, x, r.choice(cmp_ops), y))
+    # MINIMUM / MAXIMUM of an array of scalars (the element-wise unary form)
+    u += ["  constant mn : natural := minimum(na1);", "  constant mx : nat8_t := maximum(n81);",
+          "  constant ms : std_logic := maximum(sl2);", "  constant mq : word_t := minimum(sa2);",
+          "  constant v1 : word_t := %s;" % lits[2], "  constant v2 : word_t := %s;" % lits[3],
+          "  constant c1 : boolean := v1 %s v2;" % r.choice(["<", "=", "<="])]
+    if "maximum" in ops:
+        u.append("  constant c2 : word_t := maximum(v1, v2);")
+    if "to_string" in ops:
+        u.append("  constant c3 : string := to_string(v1);")
+    # an explicit overload in the architecture itself, followed by an alias of the type there
+    u += ["  function minimum (a, b : word_t) return word_t is", "  begin", "    if a < b then return a; else return b; end if;", "  end function;",
+          "  alias w_here_t is word_t;", "  constant c4 : w_here_t := minimum(v1, v2);",
+          "begin", "  assert b0 or b1 or b2 or b3 or c1;", "end architecture;"]
+    # another package: explicit operator on the type from elsewhere, then an alias of it
+    other = ["library %s;" % lib, "use %s.%s.all;" % (lib, pk), "package %s is" % usr,
+             '  function ">" (a, b : word_t) return boolean;', "  alias w_far_t is word_t;",
+             "  constant far : w_far_t := %s;" % lits[1], "end package;",
+             "package body %s is" % usr, '  function ">" (a, b : word_t) return boolean is', "  begin",
+             "    return %s > %s;" % (conv("a"), conv("b")), "  end function;", "end package body;"]
+    return lib, [("u_pkg.vhd", "\n".join(pkg) + "\n"), ("u_body.vhd", "\n".join(body) + "\n"),
+                 ("u_user.vhd", "\n".join(u) + "\n"), ("u_other.vhd", "\n".join(other) + "\n")]
+
+
 def template_bundle(seed_, n, path):
     r = random.Random(seed_ * 31 + 5)
     with open(path, "w") as f:
         for k in range(n):
-            lib, files = template_program(k, r)
+            lib, files = template_program(k, r) if k % 2 == 0 else template_program2(k, r)
             f.write("P t%d\n" % k)
             for name, text in files:
                 lines = text.split("\n")
@@ -356,7 +431,7 @@ def check_templates(res, hbin, d, tier):
             if bad <= 3:
                 what = ("Project::analyse panics" if (o and o["panic"]) else
                         "error diagnostic: " + describe_diag(errors_of(o)[0]) if o else "no result")
-                res.violation("generic-package template program (valid by inspection; exploration only, outside the theorems): " + what,
+                res.violation("template program (generic packages / explicit operator overloads + alias / arrays of subtypes; valid by inspection; exploration only, outside the theorems): " + what,
                               {"kind": "input", "template": pid, "seed": seed(), "files": b.text_of(pid),
                                "diagnostics": [describe_diag(x) for x in (errors_of(o) if o else [])][:10]})
     res.coverage["template_programs"] = n
@@ -526,7 +601,10 @@ def main(tier, replay=None):
                         "An additional exploration-only stream (coverage.template_programs) of hand-written parameterised "
                         "template programs exercises generic packages with generic TYPES, types declared in the generic "
                         "package and deferred constants used through instances in typed contexts: these are outside the "
-                        "MiniVHDL fragment and outside the theorems (valid by inspection)"),
+                        "MiniVHDL fragment and outside the theorems (valid by inspection); every second template program "
+                        "instead declares explicit overloads of predefined operations (\"<\", \"=\", maximum, to_string ...) "
+                        "followed by an alias of the type in the same region, and compares arrays whose element is named by "
+                        "a subtype (natural, std_logic, user subtypes) with < <= > >= and MINIMUM/MAXIMUM"),
         "partial": True,
         "trusted_base": TRUSTED_BASE_COMMON + [
             "the reference semantics Mini/Sem.v is a sufficient condition for LRM validity on the fragment (two conservative "
